@@ -4,7 +4,6 @@ import (
 	"fmt"
 	"os"
 	"runtime"
-	"runtime/pprof"
 	"time"
 
 	"github.com/miekg/dns"
@@ -41,8 +40,10 @@ func build(n3 *zm.NSEC3Params) *authsim.Universe {
 func main() {
 	if len(os.Args) > 1 && os.Args[1] == "leak" {
 		var ms runtime.MemStats
-		for i := 0; i < 5; i++ {
+		for i := 0; i < 3; i++ {
+			t0 := time.Now()
 			u := build(nil)
+			t1 := time.Now()
 			st, err := u.NewResolverStack()
 			if err != nil {
 				panic(err)
@@ -50,15 +51,29 @@ func main() {
 			q := new(dns.Msg)
 			q.SetQuestion("www.example.test.", dns.TypeA)
 			q.SetEdns0(1232, true)
+			t2 := time.Now()
 			r := st.Query("127.0.0.1", q)
-			st.Quiesce(2 * time.Second)
+			t3 := time.Now()
+			{
+				a, b, c, d := st.Handler.VerifSlots()
+				fmt.Println("slots after query", a, b, c, d, "backlog", st.Cache().VerifStackPrefetchBacklog())
+			}
+			qok := st.Quiesce(2 * time.Second)
+			for _, p := range u.Log.All() {
+				fmt.Println("   ", p.String())
+			}
+			t4 := time.Now()
 			st.Close()
+			t5 := time.Now()
 			u.Close()
+			fmt.Printf("new=%v query=%v quiesce=%v(%v) close=%v uclose=%v ", t2.Sub(t1), t3.Sub(t2), t4.Sub(t3), qok, t5.Sub(t4), time.Since(t5))
+			a, b, c, d := st.Handler.VerifSlots()
+			fmt.Println(a, b, c, d)
 			runtime.GC()
 			runtime.ReadMemStats(&ms)
+			fmt.Printf("build=%v stack+q+close=%v ", t1.Sub(t0), time.Since(t1))
 			fmt.Printf("iter %d rcode=%d ad=%v goroutines=%d heap=%dMB\n", i, r.Rcode, r.AuthenticatedData, runtime.NumGoroutine(), ms.HeapAlloc>>20)
 		}
-		pprof.Lookup("goroutine").WriteTo(os.Stdout, 1)
 		return
 	}
 	for _, n3 := range []*zm.NSEC3Params{nil, {Salt: "aabb", Iterations: 1}, {OptOut: true}} {
